@@ -604,9 +604,13 @@ def member_trace(seed, n_events=300, workdir=None, keep_obs=False, listeners=())
         if not live:
             break
         if r < 0.08:
-            cand = [x for x in pool if x not in members and x not in removed and x not in sch.alive]
+            # one schedule in seven also re-uses the address of a removed member for the fresh process (the operator
+            # discipline allows it: "can only return as a fresh, empty process") - known finding KF-C10-1
+            reuse = (seed % 7 == 0)
+            cand = [x for x in pool if x not in members and (reuse or x not in removed) and x not in sch.alive]
             if cand and len(members) < 5:
                 x = rng.choice(cand)
+                removed.discard(x)
                 sch.voters.append(x)
                 sch.clock.setdefault(x, 0)
                 sch.clock[x] += 1
